@@ -33,6 +33,33 @@
         // C07: refused exactly if the key is the key of this CA or of an ancestor
         res is Ok <==> !self.key_on_chain(key_id),
     decreases self,
+//@ fn CaCert::cert
+//@ spec
+    ensures res == &self.cert,
+//@ fn CaCert::uri
+//@ spec
+    ensures res == &self.uri,
+//@ fn CaCert::ca_repository
+//@ spec
+    ensures res == &self.ca_repository,
+//@ fn CaCert::rpki_manifest
+//@ spec
+    ensures res == &self.rpki_manifest,
+//@ fn CaCert::rpki_notify
+//@ spec
+    ensures res == self.cert.rpki_notify_spec(),
+//@ fn RunFailed::fatal
+//@ spec
+    ensures res == (RunFailed { fatal: true }),
+//@ fn RunFailed::retry
+//@ spec
+    ensures res == (RunFailed { fatal: false }),
+//@ fn RunFailed::is_fatal
+//@ spec
+    ensures res == self.fatal,
+//@ fn RunFailed::should_retry
+//@ spec
+    ensures res == !self.fatal,
 //@ global
 impl CaCert {
     // Number of certificates between this one and its trust anchor.
